@@ -44,6 +44,7 @@ THEOREMS = [
     "Nix.C09.split_compound_roundtrip",
     "Nix.C09.scalable_iff_same_unit_power",
     "Nix.C09.scalable_lists",
+    "Nix.C09.model_fuel_never_exhausted",
     "Nix.C09.atomic_exact",
     "Nix.C09.atom_reading_unique",
     "Nix.C09.split_of_non_atomic",
